@@ -1356,7 +1356,16 @@ impl Pt {
             }
         }
         self.handles.clear();
-        let ids: Vec<(u64, u64)> = self.nodes.iter().filter(|(k, _)| **k != 1).map(|(k, v)| (*k, v.count)).collect();
+        // a client may return the references of one inode in several records of one batch
+        let mut ids: Vec<(u64, u64)> = vec![];
+        for (k, v) in self.nodes.iter().filter(|(k, _)| **k != 1) {
+            if v.count >= 2 && k % 2 == 0 {
+                ids.push((*k, 1));
+                ids.push((*k, v.count - 1));
+            } else {
+                ids.push((*k, v.count));
+            }
+        }
         for chunk in ids.chunks(7) {
             if chunk.len() == 1 {
                 self.forget(out, chunk[0].0, chunk[0].1);
